@@ -1,11 +1,70 @@
-from jsim.envs.base import Adapter
+"""Tetris: rules written from docs/environments/tetris.md and the class docstring.
+
+Grid of num_rows x num_cols (state.grid_padded carries 3 extra rows/columns of padding that must
+stay empty). Action [rotation, x]: the shown tetromino is rotated by rotation * 90 degrees
+(clockwise, re-anchored to the top-left corner of its 4x4 box), put with its left edge in column x
+and dropped straight down from the top until it rests. Completed lines disappear, everything above
+moves down; the reward for 0..4 cleared lines is [0, 40, 100, 300, 1200]. The episode ends on an
+invalid placement (reward 0), when the stack reaches the top (the next tetromino cannot be placed
+any more) or at the time limit.
+
+Legal set: the docs only say "the game ends when the stack reaches the top", so the mask is judged
+with a two-sided bound (DESIGN section 4, C04):
+  hi: the rotated piece lies within the columns at x and fits at the top (y = 0) without overlap, so a
+      straight drop comes to rest fully inside the visible grid;
+  lo: the piece lies within the columns and rows 0-3 (the entry rows) of the columns it spans are empty.
+Between the two (partly filled entry rows) nothing is asserted.
+
+Known non-violation: state.y_position is -1 for a flat piece dropped on empty columns (the grid is
+right); y_position is therefore not part of the model.
+"""
+from __future__ import annotations
+
+from typing import Any, Dict, List, Optional, Tuple
+
+import numpy as np
+
 from jsim.envs._mk import cfg, cross_tl
+from jsim.envs.base import Adapter
+
+REWARD = [0.0, 40.0, 100.0, 300.0, 1200.0]  # docs: reward_list, indexed by the number of lines cleared
+
+
+def _cells(base: Any, r: int) -> List[Tuple[int, int]]:
+    """Cells (row, col) of the tetromino `base` (4x4) turned clockwise r times, anchored top-left."""
+    p = np.rot90(np.asarray(base) != 0, k=-int(r))
+    rows, cols = np.flatnonzero(p.any(axis=1)), np.flatnonzero(p.any(axis=0))
+    if len(rows) == 0:
+        return []
+    return [(int(i - rows[0]), int(j - cols[0])) for i, j in np.argwhere(p)]
+
+
+def _is_tetromino(t: np.ndarray) -> bool:
+    """4 cells, edge-connected, anchored to the top-left of the 4x4 box."""
+    t = np.asarray(t)
+    if t.shape != (4, 4) or not np.isin(t, (0, 1)).all() or int(t.sum()) != 4:
+        return False
+    cells = [tuple(int(v) for v in c) for c in np.argwhere(t == 1)]
+    if min(c[0] for c in cells) != 0 or min(c[1] for c in cells) != 0:
+        return False
+    seen, stack = {cells[0]}, [cells[0]]
+    while stack:
+        i, j = stack.pop()
+        for n in ((i + 1, j), (i - 1, j), (i, j + 1), (i, j - 1)):
+            if n in cells and n not in seen:
+                seen.add(n)
+                stack.append(n)
+    return len(seen) == 4
 
 
 class A(Adapter):
     name = "Tetris"
     mask_mode = "joint"
     terminate_on_invalid = True
+    has_invalid_effect = True
+    has_physical = True
+    has_model = True
+    has_observer = True
 
     def configs(self):
         base = [cfg("r10c10", True, r=10, c=10, tl=None), cfg("r6c6", True, r=6, c=6, tl=None), cfg("r8c5", r=8, c=5, tl=None),
@@ -19,3 +78,212 @@ class A(Adapter):
 
     def time_limit(self, env, c):
         return 400 if c.get("tl") is None else c["tl"]
+
+    # ---- rules -------------------------------------------------------------------------------------
+    @staticmethod
+    def _occ(s: Any) -> np.ndarray:
+        g = np.asarray(s.grid_padded)
+        return g[: g.shape[0] - 3, : g.shape[1] - 3] != 0
+
+    def legal_bounds(self, s: Any, env: Any) -> Tuple[np.ndarray, np.ndarray]:
+        occ = self._occ(s)
+        R, C = occ.shape
+        lo = np.zeros((4, C), bool)
+        hi = np.zeros((4, C), bool)
+        for r in range(4):
+            cells = _cells(s.new_tetromino, r)
+            if not cells:
+                continue
+            w = max(j for _, j in cells) + 1
+            for x in range(C - w + 1):  # the piece lies within the columns
+                hi[r, x] = not any(occ[i, x + j] for i, j in cells)  # it can enter at the top
+                lo[r, x] = not occ[:4, x:x + w].any()  # the entry rows above the landing columns are empty
+        return lo, hi
+
+    def describe(self, s, env, idx):
+        r, x = int(idx[0]), int(idx[1])
+        return f"rotation {r} (cells {_cells(s.new_tetromino, r)}) at x={x}; top rows of the grid:\n{self._occ(s)[:4].astype(int)}"
+
+    @staticmethod
+    def _place(occ: np.ndarray, cells: List[Tuple[int, int]], x: int) -> Tuple[np.ndarray, int, np.ndarray]:
+        """Straight drop from the top, then line clearing. Returns (new grid, lines cleared, grid before clearing)."""
+        R, C = occ.shape
+        h = max(i for i, _ in cells) + 1
+        y = 0
+        while y + 1 + h <= R and not any(occ[y + 1 + i, x + j] for i, j in cells):
+            y += 1
+        g = occ.copy()
+        for i, j in cells:
+            g[y + i, x + j] = True
+        full = g.all(axis=1)
+        k = int(full.sum())
+        out = np.zeros_like(g)
+        if k < R:
+            out[k:] = g[~full]
+        return out, k, g
+
+    def _verdict(self, ps: Any, action: Any, env: Any) -> Tuple[Optional[bool], np.ndarray, np.ndarray]:
+        """True = legal by the rules, False = illegal, None = the rules are silent (between the bounds)."""
+        lo, hi = self.legal_bounds(ps, env)
+        r, x = int(action[0]), int(action[1])
+        if lo[r, x]:
+            return True, lo, hi
+        if not hi[r, x]:
+            return False, lo, hi
+        return None, lo, hi
+
+    # ---- C05 -----------------------------------------------------------------------------------------
+    def invalid_effect(self, ps, action, illegal, s, ts, env, cfg):
+        if int(ts.step_type) != 2:
+            return ("invalid_placement_not_terminal", f"step_type {int(ts.step_type)} after an illegal placement")
+        if float(ts.reward) != 0.0:
+            return ("invalid_placement_reward", f"reward {float(ts.reward)} != 0 on an illegal placement")
+        if float(ts.discount) != 0.0:
+            return ("invalid_placement_discount", f"discount {float(ts.discount)} != 0 on the terminal step")
+        return None
+
+    # ---- C07 -----------------------------------------------------------------------------------------
+    def physical(self, ps, action, s, ts, env, cfg):
+        g = np.asarray(s.grid_padded)
+        R, C = g.shape[0] - 3, g.shape[1] - 3
+        if (R, C) != (cfg["r"], cfg["c"]):
+            return ("grid_shape", f"grid_padded {g.shape} for a {cfg['r']}x{cfg['c']} game")
+        if (g < 0).any():
+            return ("negative_cell", f"grid_padded has negative entries")
+        if (g[R:] != 0).any() or (g[:, C:] != 0).any():
+            i = np.argwhere((g != 0) & ~np.pad(np.ones((R, C), bool), ((0, 3), (0, 3))))[0]
+            return ("padding_not_empty", f"padding cell {i.tolist()} holds {int(g[tuple(i)])}")
+        occ = g[:R, :C] != 0
+        if occ.all(axis=1).any():
+            return ("full_line_remains", f"row {int(np.flatnonzero(occ.all(axis=1))[0])} is full and was not cleared")
+        n = int(occ.sum())
+        if ps is None:
+            if n != 0:
+                return ("reset_grid_not_empty", f"{n} filled cells after reset")
+            return None
+        n0 = int(self._occ(ps).sum())
+        lost = n0 + 4 - n  # the episode continues, so the placement was accepted: +4 cells, minus the cleared rows
+        if lost < 0 or lost % C or lost // C > 4:
+            return ("cell_count", f"{n0} cells before, {n} after placing a tetromino: not +4 minus a multiple (0..4) of num_cols={C}")
+        k = lost // C
+        if not np.isclose(float(ts.reward), REWARD[k], rtol=1e-5, atol=1e-6):
+            return ("cell_count_vs_reward", f"{k} rows' worth of cells disappeared ({n0}+4 -> {n}) but the reward {float(ts.reward)} is not {REWARD[k]}")
+        return None
+
+    # ---- C09 -----------------------------------------------------------------------------------------
+    def model_step(self, ps, action, s, ts, env, cfg):
+        r, x = int(action[0]), int(action[1])
+        verdict, _, _ = self._verdict(ps, action, env)
+        if verdict is None:
+            # partly filled entry rows: the rules are silent, the env's own mask decides which branch is compared
+            verdict = bool(np.asarray(ps.action_mask)[r, x])
+        last = int(ts.step_type) == 2
+        if not verdict:  # the successor state is unspecified; reward 0 and the episode ends
+            if not last:
+                return ("termination", f"illegal placement {[r, x]} but step_type {int(ts.step_type)}")
+            if float(ts.reward) != 0.0:
+                return ("reward", f"reward {float(ts.reward)} on an illegal placement")
+            return None
+        occ = self._occ(ps)
+        R, C = occ.shape
+        cells = _cells(ps.new_tetromino, r)
+        want, k, before = self._place(occ, cells, x)
+        got = self._occ(s)
+        if not np.array_equal(got, want):
+            i = np.argwhere(got != want)[0]
+            return ("grid", f"after dropping rotation {r} at x={x} ({k} lines cleared) cell {i.tolist()} is {bool(got[tuple(i)])}, rules say "
+                    f"{bool(want[tuple(i)])}\nenv:\n{got.astype(int)}\nrules:\n{want.astype(int)}")
+        if not np.isclose(float(ts.reward), REWARD[k], rtol=1e-5, atol=1e-6):
+            return ("reward", f"{k} lines cleared: reward {float(ts.reward)} expected {REWARD[k]}")
+        if not np.isclose(float(s.reward), REWARD[k], rtol=1e-5, atol=1e-6):
+            return ("state_reward", f"state.reward {float(s.reward)} expected {REWARD[k]}")
+        if not np.isclose(float(s.score), float(ps.score) + REWARD[k], rtol=1e-5, atol=1e-6):
+            return ("score", f"score {float(s.score)} expected {float(ps.score) + REWARD[k]}")
+        sc = int(ps.step_count) + 1
+        if int(s.step_count) != sc:
+            return ("step_count", f"step_count {int(s.step_count)} expected {sc}")
+        # bookkeeping fields documented in the State docstring
+        if not np.array_equal(np.asarray(s.grid_padded_old), np.asarray(ps.grid_padded)):
+            return ("grid_padded_old", "grid_padded_old is not the grid before the placement")
+        if int(s.x_position) != x:
+            return ("x_position", f"x_position {int(s.x_position)} expected {x}")
+        placed = np.zeros((4, 4), bool)
+        for i, j in cells:
+            placed[i, j] = True
+        if not np.array_equal(np.asarray(s.old_tetromino_rotated) != 0, placed):
+            return ("old_tetromino_rotated", f"old_tetromino_rotated is not rotation {r} of the shown tetromino")
+        fl = np.asarray(s.full_lines).astype(bool)
+        wfl = np.zeros(fl.shape, bool)
+        wfl[:R] = before.all(axis=1)
+        if not np.array_equal(fl, wfl):
+            return ("full_lines", f"full_lines {np.flatnonzero(fl).tolist()} expected {np.flatnonzero(wfl).tolist()}")
+        # random part by set membership: the next piece is one of the tetrominoes
+        nt = np.asarray(s.new_tetromino)
+        if not _is_tetromino(nt):
+            return ("next_piece", f"new_tetromino is not a tetromino anchored top-left:\n{nt}")
+        if not 0 <= int(s.tetromino_index) < 7:
+            return ("next_piece_index", f"tetromino_index {int(s.tetromino_index)} outside 0..6")
+        # termination: time limit, or the next piece cannot be placed any more (two-sided)
+        lo2, hi2 = self.legal_bounds(s, env)
+        tl = self.time_limit(env, cfg)
+        if sc >= tl or not hi2.any():
+            if not last:
+                return ("termination", f"step_type {int(ts.step_type)} but the rules say done (step {sc}/{tl}, placeable={bool(hi2.any())})")
+        elif lo2.any():
+            if last:
+                return ("termination", f"episode ended at step {sc}/{tl} after a legal placement although the next piece can be placed")
+        return None
+
+    # ---- C11 -----------------------------------------------------------------------------------------
+    def end_cause(self, ps, action, s, ts, env, cfg):
+        verdict, _, _ = self._verdict(ps, action, env)
+        if verdict is None:
+            verdict = bool(np.asarray(ps.action_mask)[int(action[0]), int(action[1])])
+        if not verdict:
+            return "invalid_action"
+        lo2, hi2 = self.legal_bounds(s, env)
+        if not hi2.any():
+            return "board_topped_out"
+        if not lo2.any():
+            # every entry position is at least partly blocked: "the stack reached the top" cannot be refuted
+            return "board_topped_out_entry_rows_partly_filled"
+        return None
+
+    # ---- C12 -----------------------------------------------------------------------------------------
+    def observe(self, s, obs, env, cfg):
+        occ = self._occ(s).astype(np.int64)
+        g = np.asarray(obs.grid)
+        if g.shape != occ.shape:
+            return ("grid_shape", f"{g.shape} vs {occ.shape}")
+        if not np.array_equal(g, occ):
+            i = np.argwhere(g != occ)[0]
+            return ("grid", f"observation.grid{i.tolist()}={int(g[tuple(i)])} but the state's cell is {'filled' if occ[tuple(i)] else 'empty'}")
+        if not np.array_equal(np.asarray(obs.tetromino), np.asarray(s.new_tetromino)):
+            return ("tetromino", f"observation.tetromino differs from state.new_tetromino")
+        if not np.array_equal(np.asarray(obs.action_mask), np.asarray(s.action_mask)):
+            return ("action_mask", "observation.action_mask != state.action_mask")
+        if int(obs.step_count) != int(s.step_count):
+            return ("step_count", f"observation.step_count {int(obs.step_count)} vs state.step_count {int(s.step_count)}")
+        return None
+
+    # ---- policies --------------------------------------------------------------------------------------
+    def policy_survive(self, s, env, rng, legal):
+        """Keep the stack flat and low: prefer line clears, then low height, few holes, little bumpiness."""
+        if legal is None or not legal.any():
+            return None
+        occ = self._occ(s)
+        R, C = occ.shape
+        best, best_a = None, None
+        for r in range(4):
+            cells = _cells(s.new_tetromino, r)
+            for x in np.flatnonzero(legal[r]):
+                g, k, _ = self._place(occ, cells, int(x))
+                filled = g.any(axis=0)
+                top = np.where(filled, g.argmax(axis=0), R)  # first filled row per column
+                heights = R - top
+                holes = int(sum((~g[top[c]:, c]).sum() for c in range(C)))
+                bump = int(np.abs(np.diff(heights)).sum())
+                score = (-k, int(heights.max()), holes, bump, int(heights.sum()), r, int(x))
+                if best is None or score < best:
+                    best, best_a = score, [r, int(x)]
+        return best_a
